@@ -98,6 +98,10 @@ def _pairs_for_setting(draw):
     w = draw(optim.warm())
     if w:
         case["warm"] = w
+    if tkind.startswith("translucent") and draw(st.booleans()):
+        # translucent text: the same literal was composited over another background earlier in the process
+        case["warm"] = dict(case.get("warm") or {"mode": draw(st.sampled_from([0, 1, 2])), "very": draw(st.booleans()), "large": None},
+                            other_bg=draw(st.sampled_from(["#ffffff", "#000000", "#808080", "#b7439e"])))
     return case
 
 
